@@ -5,7 +5,10 @@ import Astisub.Model.IO
 # C17 — Parse result does not depend on how the reader delivers the bytes
 
 `Go.scan` models `bufio.Scanner` with the split function of `newScanner` (repaired: a buffer that
-ends in CR before EOF asks for more data); `IO.readFull`/`IO.stlBlocks` model `readNBytes`
+ends in CR before EOF asks for more data; a line of more than `maxLineSize = 65535` bytes is
+refused by the split function itself, and the scanner's buffer of `maxLineSize + 2` bytes is never
+the limit — so that the too-long outcome is a function of the bytes, not of the line terminator or
+of whether the last bytes come together with `io.EOF`); `IO.readFull`/`IO.stlBlocks` model `readNBytes`
 (repaired: `io.ReadFull`) and the block loop of `ReadFromSTL`.  A *schedule* is any list of
 chunks (one per `Read` call, `[]` = zero-length read).  Statements hold for every schedule and
 every byte string.  TTML and teletext readers hand the stream to `encoding/xml` / `go-astits`:
@@ -16,34 +19,221 @@ namespace Astisub
 namespace C17
 open Go IO List
 
+/-! ### the scanner: the whole result — tokens and error, the too-long outcome included — from the bytes -/
+
+/-- **The result of a scan is a function of the bytes.** For every schedule `cs` and every end `e`
+    whose run hits neither the empty-read limit nor a bad read count (a well-behaved reader never
+    does: `noStall_bytewise`, `noStall_one_read`):
+    * the tokens are the lines of the bytes before the first line of more than 65535 bytes;
+    * the error is `finalErr e (firstLong bytes)`: nil / the reader's error when no line is too
+      long; `bufio.ErrTooLong` when one is and the stream ends with `io.EOF`; the reader's error
+      when one is and the stream ends with that error (`Scanner.setErr` keeps the first error
+      that is not `io.EOF`) —
+    * or, in that last case only (`e = fault`, a line too long), `bufio.ErrTooLong` if the split
+      function saw the long line before the reader reported its error.
+    For `e = eof` the two alternatives coincide: `scan_bytes_eof`. -/
+theorem scan_bytes (cs : List (List UInt8)) (e : End) (h : NoStall (scan true [] cs e 0).2) :
+    (scan true [] cs e 0).1 = linesBefore cs.flatten ∧
+    ((scan true [] cs e 0).2 = finalErr e (firstLong cs.flatten) ∨
+      (firstLong cs.flatten = true ∧ (scan true [] cs e 0).2 = some .tooLong)) := by
+  simpa using scan_bytes_gen [] cs e 0 h
+
+/-- Stream ending with `io.EOF`: tokens *and* error are determined by the bytes alone. -/
+theorem scan_bytes_eof (cs : List (List UInt8)) (h : NoStall (scan true [] cs .eof 0).2) :
+    scan true [] cs .eof 0 =
+      (linesBefore cs.flatten, if firstLong cs.flatten then some .tooLong else none) := by
+  simpa using Go.scan_bytes_eof [] cs 0 h
+
+/-- Stream ending with a read error: the tokens are determined by the bytes; the error is never
+    nil, and it is the reader's own unless a line is too long. -/
+theorem scan_bytes_fault (cs : List (List UInt8)) (h : NoStall (scan true [] cs .fault 0).2) :
+    (scan true [] cs .fault 0).1 = linesBefore cs.flatten ∧
+    ((scan true [] cs .fault 0).2 = some .io ∨
+      (firstLong cs.flatten = true ∧ (scan true [] cs .fault 0).2 = some .tooLong)) := by
+  simpa [finalErr] using scan_bytes cs .fault h
+
+/-- **Two deliveries of the same bytes give the same result — with no exception for long lines.**
+    (Before the repair this needed the hypothesis that neither run ended with `bufio.ErrTooLong`;
+    the pinned code does not satisfy the statement: `pinned_long_line_depends_on_delivery`.) -/
+theorem schedule_independent_full (cs₁ cs₂ : List (List UInt8)) (hb : cs₁.flatten = cs₂.flatten)
+    (h₁ : NoStall (scan true [] cs₁ .eof 0).2) (h₂ : NoStall (scan true [] cs₂ .eof 0).2) :
+    scan true [] cs₁ .eof 0 = scan true [] cs₂ .eof 0 := by
+  rw [scan_bytes_eof cs₁ h₁, scan_bytes_eof cs₂ h₂, hb]
+
+/-- Hence every line-based reader (SRT, WebVTT, SSA — any function of the scanned lines and the
+    scanner's error, including the failing cases and the too-long case) returns the same result
+    for both deliveries. -/
+theorem line_reader_independent_full {β : Type} (reader : List (List UInt8) × Option ScanErr → β)
+    (cs₁ cs₂ : List (List UInt8)) (hb : cs₁.flatten = cs₂.flatten)
+    (h₁ : NoStall (scan true [] cs₁ .eof 0).2) (h₂ : NoStall (scan true [] cs₂ .eof 0).2) :
+    reader (scan true [] cs₁ .eof 0) = reader (scan true [] cs₂ .eof 0) := by
+  rw [schedule_independent_full cs₁ cs₂ hb h₁ h₂]
+
+/-- Under a read error the tokens are still schedule independent (the error is `io` or `tooLong`,
+    never nil: `C18`). -/
+theorem schedule_independent_fault_tokens (cs₁ cs₂ : List (List UInt8)) (hb : cs₁.flatten = cs₂.flatten)
+    (h₁ : NoStall (scan true [] cs₁ .fault 0).2) (h₂ : NoStall (scan true [] cs₂ .fault 0).2) :
+    (scan true [] cs₁ .fault 0).1 = (scan true [] cs₂ .fault 0).1 := by
+  rw [(scan_bytes cs₁ .fault h₁).1, (scan_bytes cs₂ .fault h₂).1, hb]
+
+/-- The hypothesis is satisfiable for every byte string: deliver it one byte per `Read`. The
+    result is then *the* result of that byte string under every well-behaved delivery. -/
+theorem bytewise (bs : List UInt8) :
+    scan true [] (bs.map fun b => [b]) .eof 0 =
+      (linesBefore bs, if firstLong bs then some .tooLong else none) := by
+  have hfl : ∀ l : List UInt8, (l.map fun b => [b]).flatten = l := by
+    intro l
+    induction l with
+    | nil => rfl
+    | cons b bs ih => simp [ih]
+  have h := scan_bytes_eof (bs.map fun b => [b]) (noStall_bytewise _ _ _ _ (by simp))
+  rwa [hfl] at h
+
+/-- "returns its last bytes together with end-of-file" is the same schedule followed by EOF:
+    the model has no separate case for it (a `Read` returning `(n, io.EOF)` is a chunk of `n`
+    bytes and then the end marker; a `Read` returning `(n, nil)` and the next one `(0, io.EOF)`
+    behaves like the chunk, an empty chunk, and the end marker). The one-read delivery: -/
+theorem one_read_full (bs : List UInt8) (hlen : bs.length ≤ bufSize true) :
+    scan true [] [bs] .eof 0 = (linesBefore bs, if firstLong bs then some .tooLong else none) := by
+  simpa using scan_bytes_eof [bs] (noStall_one_read bs .eof hlen)
+
+/-- … and the same bytes with the end-of-file in a `Read` of its own -/
+theorem one_read_then_eof (bs : List UInt8)
+    (h : NoStall (scan true [] [bs, []] .eof 0).2) :
+    scan true [] [bs, []] .eof 0 = (linesBefore bs, if firstLong bs then some .tooLong else none) := by
+  simpa using scan_bytes_eof [bs, []] h
+
+/-! ### the statements as they were before the repair (corollaries) -/
+
 /-- The scanner's tokens are the lines of the bytes, whatever the schedule — as long as the run
-    hits none of the scanner's own limits (64 KiB token, 100 empty reads). -/
+    hits none of the scanner's limits (line length, 100 empty reads, bad read count). When the
+    stream ends with a read error a final over-long line is not delivered and its
+    `bufio.ErrTooLong` is masked by the read error: hence `linesBefore` (`= linesOf` when the
+    stream ends with `io.EOF`: `tokens_are_lines_eof`). -/
 theorem tokens_are_lines (cs : List (List UInt8)) (e : End) (h : LimitFree (scan true [] cs e 0).2) :
-    (scan true [] cs e 0).1 = linesOf cs.flatten ∧ (scan true [] cs e 0).2 = endErr e := by
+    (scan true [] cs e 0).1 = linesBefore cs.flatten ∧ (scan true [] cs e 0).2 = endErr e := by
   have := scan_spec [] cs e 0 h
+  rw [this]; simp
+
+theorem tokens_are_lines_eof (cs : List (List UInt8)) (h : LimitFree (scan true [] cs .eof 0).2) :
+    (scan true [] cs .eof 0).1 = linesOf cs.flatten ∧ (scan true [] cs .eof 0).2 = none := by
+  have := scan_spec_eof [] cs 0 h
   rw [this]; simp [linesOf]
+
+/-- no error at all: every line of every byte was delivered, and the stream ended with `io.EOF` -/
+theorem no_error_all_lines (cs : List (List UInt8)) (e : End) (h : (scan true [] cs e 0).2 = none) :
+    e = .eof ∧ (scan true [] cs e 0).1 = linesOf cs.flatten := by
+  have hlf : LimitFree (scan true [] cs e 0).2 := by
+    rw [h]; exact ⟨by simp, by simp, by simp⟩
+  cases e with
+  | fault => exact absurd h (scan_fault true [] cs 0)
+  | eof => exact ⟨rfl, (tokens_are_lines_eof cs hlf).1⟩
 
 /-- Two deliveries of the same bytes give the same tokens and the same (absent) error. -/
 theorem schedule_independent (cs₁ cs₂ : List (List UInt8)) (hb : cs₁.flatten = cs₂.flatten)
     (h₁ : LimitFree (scan true [] cs₁ .eof 0).2) (h₂ : LimitFree (scan true [] cs₂ .eof 0).2) :
-    scan true [] cs₁ .eof 0 = scan true [] cs₂ .eof 0 := by
-  rw [scan_spec [] cs₁ .eof 0 h₁, scan_spec [] cs₂ .eof 0 h₂, hb]
+    scan true [] cs₁ .eof 0 = scan true [] cs₂ .eof 0 :=
+  schedule_independent_full cs₁ cs₂ hb h₁.noStall h₂.noStall
 
-/-- Hence every line-based reader (SRT, WebVTT, SSA — any function of the scanned lines and the
-    scanner's error, including the failing cases) returns the same result for both deliveries. -/
 theorem line_reader_independent {β : Type} (reader : List (List UInt8) × Option ScanErr → β)
     (cs₁ cs₂ : List (List UInt8)) (hb : cs₁.flatten = cs₂.flatten)
     (h₁ : LimitFree (scan true [] cs₁ .eof 0).2) (h₂ : LimitFree (scan true [] cs₂ .eof 0).2) :
     reader (scan true [] cs₁ .eof 0) = reader (scan true [] cs₂ .eof 0) := by
   rw [schedule_independent cs₁ cs₂ hb h₁ h₂]
 
-/-- "returns its last bytes together with end-of-file" is the same schedule followed by EOF:
-    the model has no separate case for it (a `Read` returning `(n, io.EOF)` is a chunk of `n`
-    bytes and then the end marker), so the statements above cover it. The one-read delivery: -/
 theorem one_read (bs : List UInt8) (h : LimitFree (scan true [] [bs] .eof 0).2) :
     (scan true [] [bs] .eof 0).1 = linesOf bs := by
-  have := (tokens_are_lines [bs] .eof h).1
+  have := (tokens_are_lines_eof [bs] h).1
   simpa using this
+
+/-! ### the longest line: 65535 bytes pass, 65536 fail — whatever ends the line, however it is delivered
+
+`L` is any run of bytes without CR/LF (`NoEOL`), e.g. `List.replicate n 97`
+(`noEOL_replicate`). Nothing here evaluates a 65536-element list. -/
+
+/-- a final unterminated line of exactly 65536 bytes, delivered together with the end-of-file … -/
+theorem long_final_line_with_eof (L : List UInt8) (h : NoEOL L) (hlen : L.length = maxLineSize + 1) :
+    scan true [] [L] .eof 0 = ([], some .tooLong) := by
+  have hl := lineTooLong_of_noEOL' h (by omega)
+  rw [one_read_full L (by simp [bufSize]; omega), (firstLong_of_lineTooLong hl).1,
+    (firstLong_of_lineTooLong hl).2]; rfl
+
+/-- … and with the end-of-file in a `Read` of its own: the same (this was the defect) -/
+theorem long_final_line_then_eof (L : List UInt8) (h : NoEOL L) (hlen : L.length = maxLineSize + 1) :
+    scan true [] [L, []] .eof 0 = ([], some .tooLong) := by
+  have hl := lineTooLong_of_noEOL' h (by omega)
+  have hL : L.isEmpty = false := by cases L <;> simp_all
+  rw [scan_start, hL]
+  simp only [Bool.false_eq_true, ↓reduceIte]
+  rw [if_neg (by simp [bufSize]; omega), scan_long hl]
+
+/-- the pinned code: the first delivery passed, the second failed -/
+theorem pinned_long_line_depends_on_delivery (L : List UInt8) (h : NoEOL L) (hlen : L.length = maxLineSize + 1) :
+    scan false [] [L] .eof 0 = ([L], none) ∧ scan false [] [L, []] .eof 0 = ([], some .tooLong) := by
+  have hL : L.isEmpty = false := by cases L <;> simp_all
+  have hne : L ≠ [] := by intro h0; simp [h0] at hL
+  have hsz : ¬ L.length > bufSize false := by simp [bufSize, maxTokenSize, maxLineSize] at hlen ⊢; omega
+  constructor
+  · rw [scan_start, hL]
+    simp only [Bool.false_eq_true, ↓reduceIte]
+    rw [if_neg hsz, scan_nil, drainL_false]
+    have hs : splitLine false L true = .tok L.length L := by
+      unfold splitLine
+      have : (true && L.isEmpty) = false := by simp [hL]
+      rw [this, breakEOL_noEOL h]; simp
+    rw [drain_tok hs]; simp [drain_nil, finalErr]
+  · rw [scan_start, hL]
+    simp only [Bool.false_eq_true, ↓reduceIte]
+    rw [if_neg hsz]
+    have hm : splitLine false L false = .more := by
+      unfold splitLine; rw [breakEOL_noEOL h]; simp
+    rw [scan_more (by simp) hm, if_pos (by simp [bufSize, maxTokenSize, maxLineSize] at hlen ⊢; omega)]
+
+/-- non-vacuity: such an `L` exists -/
+theorem long_final_line_example :
+    scan true [] [List.replicate (maxLineSize + 1) 97] .eof 0 = ([], some .tooLong) ∧
+    scan true [] [List.replicate (maxLineSize + 1) 97, []] .eof 0 = ([], some .tooLong) :=
+  ⟨long_final_line_with_eof _ (noEOL_replicate _) List.length_replicate,
+   long_final_line_then_eof _ (noEOL_replicate _) List.length_replicate⟩
+
+/-- one byte fewer passes, under both deliveries, and is delivered as the one line it is -/
+theorem longest_line_passes (L : List UInt8) (h : NoEOL L) (hlen : L.length = maxLineSize) :
+    scan true [] [L] .eof 0 = ([L], none) ∧ scan true [] [L, []] .eof 0 = ([L], none) := by
+  have hne : L ≠ [] := by intro h0; simp [h0, maxLineSize] at hlen
+  have hd := drainL_noEOL true h hne (by omega)
+  have hb := drainL_bytes L
+  rw [hd] at hb
+  have h1 : linesBefore L = [L] := (congrArg Prod.fst hb).symm
+  have h2 : firstLong L = false := (congrArg Prod.snd hb).symm
+  have hL : L.isEmpty = false := by cases L <;> simp_all
+  have hm : splitLine true L false = .more := by
+    unfold splitLine; rw [breakEOL_noEOL h]; simp
+  have hl : lineTooLong L = false := by simp [lineTooLong, breakEOL_noEOL h]; omega
+  constructor
+  · rw [one_read_full L (by simp [bufSize]; omega), h1, h2]; rfl
+  · apply one_read_then_eof L ?_ |>.trans (by rw [h1, h2]; rfl)
+    rw [scan_start, hL]
+    simp only [Bool.false_eq_true, ↓reduceIte]
+    rw [if_neg (by simp [bufSize]; omega), scan_more (by simp [hl]) hm,
+      if_neg (by simp [bufSize]; omega)]
+    simp only [List.isEmpty_nil, ↓reduceIte]
+    rw [if_neg (by simp [maxEmptyReads]), scan_nil]
+    exact noStall_finalErr .eof _
+
+/-- under a read error both outcomes of `scan_bytes_fault` occur: the reader's error when the
+    long line comes together with it, `bufio.ErrTooLong` when the split function saw the line
+    first -/
+theorem long_line_fault_both (L : List UInt8) (h : NoEOL L) (hlen : L.length = maxLineSize + 1) :
+    scan true [] [L] .fault 0 = ([], some .io) ∧ scan true [] [L, []] .fault 0 = ([], some .tooLong) := by
+  have hl := lineTooLong_of_noEOL' h (by omega)
+  have hL : L.isEmpty = false := by cases L <;> simp_all
+  constructor
+  · rw [scan_start, hL]
+    simp only [Bool.false_eq_true, ↓reduceIte]
+    rw [if_neg (by simp [bufSize]; omega), scan_nil, drainL_long hl]; rfl
+  · rw [scan_start, hL]
+    simp only [Bool.false_eq_true, ↓reduceIte]
+    rw [if_neg (by simp [bufSize]; omega), scan_long hl]
 
 /-! ### the CR LF pair cut between two reads -/
 
